@@ -132,12 +132,18 @@ func closeAndCheck(rep Rep, s *Sys) bool {
 	// scale-in by design); the property's fairness premise is then false for this run.
 	set = s.Set()
 	D := model.DesiredSet(int(*set.Spec.Replicas), parseSlots(set))
+	// (one such pod is not enough: it is the first unhealthy pod once everything else is Ready, and is removed;
+	// it takes a second one, which the ordered scale-in never gets past)
 	if set.Spec.PodManagementPolicy != "Parallel" {
+		stuck := 0
 		for _, p := range s.C.PodsIn(NS) {
 			if ord, ok := model.Canonical(s.Name, p.Name); ok && !D[ord] && terminal(p) {
-				rep.Label("premise-excluded:terminal-pod-outside-desired-set-under-OrderedReady")
-				return false
+				stuck++
 			}
+		}
+		if stuck >= 2 {
+			rep.Label("premise-excluded:terminal-pod-outside-desired-set-under-OrderedReady")
+			return false
 		}
 	}
 	if !fixed {
@@ -270,7 +276,21 @@ func runC12(rep Rep, w World) {
 		}
 	}
 	rep.FP(worldFP(w))
-	closeAndCheck(rep, s)
+	// pods named S-<digits> that are not the canonical spelling of an ordinal (S-01, S-4294967296) are members the
+	// controller counts but never manages: the per-write rules above apply, the fixed-point census does not
+	strays := false
+	for _, p := range s.C.PodsIn(NS) {
+		if parent, _, _ := model.ParsePodName(p.Name); parent == s.Name {
+			if _, ok := model.Canonical(s.Name, p.Name); !ok {
+				strays = true
+			}
+		}
+	}
+	if strays {
+		rep.Label("closing-skipped:non-canonical-pod-names")
+	} else {
+		closeAndCheck(rep, s)
+	}
 	if nt {
 		rep.Nontrivial()
 	}
@@ -289,6 +309,7 @@ var c12Opts = func() worldOpts {
 	w[OpSettle] = 5
 	w[OpUserDeletePod] = 2
 	w[OpKubelet] = 10
+	w[OpAddStrayPod] = 1
 	o.weights = w
 	return o
 }()
